@@ -1,4 +1,11 @@
-"""G-prog: programs for end-to-end oracles. v0: accepted repository samples (generated programs are added by gen_core)."""
+"""G-prog: type-directed generator of well-typed Mamba core-language programs.
+
+A program is built as a tree first (the *reference tree*); the Mamba text is printed from it with every
+compound operand parenthesised, and `Interp` evaluates the tree under the documented semantics
+(operators as Python's, `a .. b` exclusive, `a ..= b` inclusive, block scoping, implicit return of a
+function's last expression, class arguments become fields, handle arms select by class ancestry).
+All random choices come from the rng passed in.
+"""
 from mvlib import repo_samples, hexs
 
 _cache = {}
@@ -16,6 +23,573 @@ def accepted_samples(chk):
     return acc
 
 
-def programs(chk):
+def programs(chk, n_generated=None):
+    """accepted repository samples + some rejected ones + generated programs (texts)"""
     acc = accepted_samples(chk)
-    return acc + _cache["rej"][:40]
+    if n_generated is None:
+        n_generated = 120 if chk.tier == "thorough" else 30
+    gen = [Gen(chk.rng).program().text for _ in range(n_generated)]
+    return acc + _cache["rej"][:40] + gen
+
+
+# ---------------------------------------------------------------------------------------------------
+# trees
+# ---------------------------------------------------------------------------------------------------
+INT, STR, BOOL = "Int", "Str", "Bool"
+
+
+class Prog:
+    def __init__(self, items, text, classes, funcs):
+        self.items, self.text, self.classes, self.funcs = items, text, classes, funcs
+
+    def expected(self):
+        return Interp(self).run()
+
+
+class Gen:
+    def __init__(self, rng, size=None):
+        self.rng = rng
+        self.n = 0
+        self.size = size or rng.randint(4, 11)
+        self.classes = {}   # name -> dict(args=[(n,ty)], fields=[(n,ty,init,fin)], methods={name: fun}, parent=None, exc=False)
+        self.funcs = {}     # name -> dict(params=[(n,ty,default)], ret=ty|None, body=[stmts], last=expr|None, raises=[cls])
+        self.excs = []
+
+    def fresh(self, prefix):
+        self.n += 1
+        return "%s%d" % (prefix, self.n)
+
+    # ---------------------------------------------------------------- expressions (typed)
+    def lit(self, ty):
+        r = self.rng
+        if ty == INT:
+            return ("lit", INT, r.randint(0, 20))
+        if ty == STR:
+            return ("lit", STR, r.choice(["a", "bc", "x y", "", "Q"]))
+        return ("lit", BOOL, r.random() < 0.5)
+
+    def expr(self, ty, env, depth=2):
+        r = self.rng
+        vars_ = [v for v in env if v[1] == ty]
+        if depth <= 0 or r.random() < 0.25:
+            if vars_ and r.random() < 0.6:
+                return ("var", ty, r.choice(vars_)[0])
+            return self.lit(ty)
+        sub = lambda t: self.expr(t, env, depth - 1)
+        k = r.random()
+        if ty == INT:
+            if k < 0.55:
+                op = r.choice(["+", "-", "*", "+", "-"])
+                return ("bin", INT, op, sub(INT), sub(INT))
+            if k < 0.65:
+                return ("bin", INT, r.choice(["//", "mod"]), sub(INT), ("lit", INT, r.randint(1, 7)))
+            if k < 0.80:
+                fs = [f for f, d in self.funcs.items() if d["ret"] == INT and not d["raises"]]
+                if fs:
+                    return self.call(r.choice(fs), env, depth)
+            if k < 0.92:
+                objs = [v for v in env if v[1] in self.classes and not self.classes[v[1]]["exc"]]
+                if objs:
+                    o = r.choice(objs)
+                    c = self.classes[o[1]]
+                    choices = [("field", INT, o[0], a) for a, t in c["args"] if t == INT]
+                    choices += [("field", INT, o[0], f[0]) for f in c["fields"] if f[1] == INT]
+                    ms = [(m, d) for m, d in c["methods"].items() if d["ret"] == INT and d["fin_self"]]
+                    if ms and r.random() < 0.5:
+                        m, d = r.choice(ms)
+                        return ("mcall", INT, o[0], m, [self.expr(t, env, depth - 1) for _, t, _ in d["params"] if True][:len(d["params"])])
+                    if choices:
+                        return r.choice(choices)
+            return ("bin", INT, "+", sub(INT), sub(INT))
+        if ty == BOOL:
+            if k < 0.5:
+                return ("bin", BOOL, r.choice(["<", "<=", ">", ">=", "=", "!="]), sub(INT), sub(INT))
+            if k < 0.7:
+                return ("bin", BOOL, r.choice(["and", "or"]), sub(BOOL), sub(BOOL))
+            if k < 0.8:
+                return ("not", BOOL, sub(BOOL))
+            return ("bin", BOOL, "<", sub(INT), sub(INT))
+        if ty == STR:
+            if k < 0.5:
+                return ("bin", STR, "+", sub(STR), sub(STR))
+            if k < 0.75:
+                return ("fstr", STR, [r.choice(["n=", "", "v "]), self.expr(INT, env, 0), r.choice(["", ".", " end"])])
+            fs = [f for f, d in self.funcs.items() if d["ret"] == STR and not d["raises"]]
+            if fs:
+                return self.call(r.choice(fs), env, depth)
+            return self.lit(STR)
+        return self.lit(ty)
+
+    def call(self, f, env, depth):
+        d = self.funcs[f]
+        args = []
+        for i, (n, t, default) in enumerate(d["params"]):
+            if default is not None and self.rng.random() < 0.4:
+                break
+            args.append(self.expr(t, env, depth - 1))
+        return ("call", d["ret"], f, args)
+
+    # ---------------------------------------------------------------- statements
+    def block(self, env, n, in_fun=None, depth=1):
+        env = list(env)
+        out = []
+        for _ in range(n):
+            s, env = self.stmt(env, in_fun, depth)
+            out.append(s)
+        return out, env
+
+    def stmt(self, env, in_fun, depth):
+        r = self.rng
+        k = r.random()
+        mut = [v for v in env if v[2] and v[1] in (INT, STR, BOOL)]
+        if k < 0.22 or not env:
+            ty = r.choice([INT, INT, STR, BOOL])
+            name = self.fresh("v")
+            e = self.expr(ty, env)
+            fin = r.random() < 0.25
+            annotated = r.random() < 0.5 or e[0] in ("fstr",)
+            return ("def", name, ty, e, fin, annotated), env + [(name, ty, not fin)]
+        if k < 0.36 and mut:
+            v = r.choice(mut)
+            if v[1] == INT and r.random() < 0.3:
+                return ("aug", v[0], r.choice(["+=", "-=", "*="]), self.expr(INT, env, 1)), env
+            return ("set", v[0], self.expr(v[1], env)), env
+        if k < 0.52:
+            return ("print", self.expr(r.choice([INT, STR, BOOL, INT]), env)), env
+        if k < 0.62 and depth > 0:
+            then, _ = self.block(env, r.randint(1, 2), in_fun, depth - 1)
+            el = None
+            if r.random() < 0.6:
+                el, _ = self.block(env, r.randint(1, 2), in_fun, depth - 1)
+            return ("if", self.expr(BOOL, env), then, el), env
+        if k < 0.70 and depth > 0:
+            i = self.fresh("i")
+            lo, hi = r.randint(0, 2), r.randint(2, 5)
+            body, _ = self.block(env + [(i, INT, False)], r.randint(1, 2), in_fun, depth - 1)
+            return ("for", i, lo, hi, r.random() < 0.4, body), env
+        if k < 0.76 and depth > 1:
+            c = self.fresh("w")
+            body, _ = self.block(env + [(c, INT, False)], r.randint(1, 2), in_fun, depth - 1)
+            return ("while", c, r.randint(1, 4), body), env
+        if k < 0.82:
+            name = self.fresh("m")
+            ty = r.choice([INT, STR])
+            scrut = self.expr(INT, env, 1)
+            arms = [(r.randint(0, 6), self.expr(ty, env, 1)) for _ in range(r.randint(1, 3))]
+            seen, arms2 = set(), []
+            for a in arms:
+                if a[0] not in seen:
+                    seen.add(a[0])
+                    arms2.append(a)
+            return ("matchdef", name, ty, scrut, arms2, self.expr(ty, env, 1)), env + [(name, ty, True)]
+        if k < 0.87:
+            name = self.fresh("t")
+            ty = r.choice([INT, STR])
+            return ("ifdef", name, ty, self.expr(BOOL, env, 1), self.expr(ty, env, 1), self.expr(ty, env, 1)), env + [(name, ty, True)]
+        if k < 0.93 and not in_fun:
+            cs = [c for c, d in self.classes.items() if not d["exc"]]
+            if cs:
+                c = r.choice(cs)
+                name = self.fresh("o")
+                args = [self.expr(t, env, 1) for _, t in self.classes[c]["args"]]
+                return ("new", name, c, args), env + [(name, c, True)]
+        objs = [v for v in env if v[1] in self.classes and not self.classes[v[1]]["exc"] and v[2]]
+        if objs and not in_fun:
+            o = r.choice(objs)
+            c = self.classes[o[1]]
+            ms = [(m, d) for m, d in c["methods"].items() if not d["fin_self"]]
+            if ms:
+                m, d = r.choice(ms)
+                return ("print", ("mcall", d["ret"], o[0], m, [self.expr(t, env, 1) for _, t, _ in d["params"]])), env
+            fl = [f for f in c["fields"] if not f[3] and f[1] == INT]
+            if fl:
+                return ("setfield", o[0], r.choice(fl)[0], self.expr(INT, env, 1)), env
+        rs = [f for f, d in self.funcs.items() if d["raises"] and d["ret"] == INT]
+        if rs and not in_fun:
+            f = r.choice(rs)
+            d = self.funcs[f]
+            name = self.fresh("h")
+            args = [self.expr(t, env, 1) for _, t, _ in d["params"]]
+            return ("handledef", name, f, args, d["raises"][0], self.expr(INT, env, 0)), env + [(name, INT, True)]
+        return ("print", self.expr(INT, env)), env
+
+    # ---------------------------------------------------------------- definitions
+    def fun(self, env0=()):
+        r = self.rng
+        name = self.fresh("f")
+        params = []
+        for i in range(r.randint(0, 3)):
+            t = r.choice([INT, INT, STR, BOOL])
+            default = self.lit(t) if (r.random() < 0.3 and (not params or params[-1][2] is not None or True) and i >= 1) else None
+            params.append((self.fresh("a"), t, default))
+        # defaults must be trailing
+        seen_default = False
+        fixed = []
+        for n, t, d in params:
+            if seen_default and d is None:
+                d = self.lit(t)
+            seen_default = seen_default or d is not None
+            fixed.append((n, t, d))
+        params = fixed
+        ret = r.choice([INT, INT, STR, BOOL])
+        env = [(n, t, False) for n, t, _ in params]
+        raises = []
+        body, env2 = self.block(env, r.randint(0, 2), in_fun=name, depth=1)
+        if self.excs and ret == INT and r.random() < 0.4:
+            e = r.choice(self.excs)
+            raises = [e]
+            ints = [p for p in params if p[1] == INT]
+            cond = ("bin", BOOL, ">", ("var", INT, ints[0][0]) if ints else ("lit", INT, r.randint(0, 5)), ("lit", INT, r.randint(0, 8)))
+            body.append(("raiseif", cond, e, "boom"))
+        last = self.expr(ret, env2)
+        self.funcs[name] = dict(params=params, ret=ret, body=body, last=last, raises=raises)
+        return name
+
+    def klass(self):
+        r = self.rng
+        name = self.fresh("K")
+        args = [(self.fresh("c"), r.choice([INT, INT, STR])) for _ in range(r.randint(0, 2))]
+        fields = []
+        for _ in range(r.randint(0, 2)):
+            t = r.choice([INT, STR])
+            fields.append((self.fresh("g"), t, self.lit(t), r.random() < 0.3))
+        d = dict(args=args, fields=fields, methods={}, parent=None, exc=False)
+        self.classes[name] = d
+        selfenv = [("self." + a, t, False) for a, t in args] + [("self." + f[0], f[1], False) for f in fields]
+        for _ in range(r.randint(1, 3)):
+            m = self.fresh("m")
+            fin_self = r.random() < 0.6
+            params = [(self.fresh("p"), r.choice([INT, INT, STR]), None) for _ in range(r.randint(0, 2))]
+            ret = r.choice([INT, INT, STR])
+            env = selfenv + [(n, t, False) for n, t, _ in params]
+            body = []
+            if not fin_self:
+                fl = [f for f in fields if not f[3]]
+                if fl:
+                    f = r.choice(fl)
+                    body.append(("setfield", "self", f[0], self.expr(f[1], env, 1)))
+            last = self.expr(ret, env, 1)
+            d["methods"][m] = dict(params=params, ret=ret, body=body, last=last, fin_self=fin_self)
+        return name
+
+    def exc(self):
+        name = self.fresh("Err")
+        parent = self.rng.choice(self.excs) if self.excs and self.rng.random() < 0.5 else "Exception"
+        self.classes[name] = dict(args=[("msg" + name, STR)], fields=[], methods={}, parent=parent, exc=True)
+        self.excs.append(name)
+        return name
+
+    def program(self):
+        r = self.rng
+        items = []
+        for _ in range(r.randint(0, 2)):
+            items.append(("exc", self.exc()))
+        for _ in range(r.randint(0, 1)):
+            items.append(("class", self.klass()))
+        for _ in range(r.randint(1, 2)):
+            items.append(("fun", self.fun()))
+        body, _ = self.block([], self.size, None, 2)
+        items += [("stmt", s) for s in body]
+        p = Prog(items, None, self.classes, self.funcs)
+        p.text = Printer(p).text()
+        return p
+
+
+# ---------------------------------------------------------------------------------------------------
+# printing
+# ---------------------------------------------------------------------------------------------------
+class Printer:
+    def __init__(self, prog):
+        self.p = prog
+        self.lines = []
+
+    def text(self):
+        for kind, x in self.p.items:
+            if kind == "exc":
+                d = self.p.classes[x]
+                a = d["args"][0][0]
+                self.lines.append("class %s(def %s: Str): %s(%s)" % (x, a, d["parent"], a))
+            elif kind == "class":
+                self.klass(x)
+            elif kind == "fun":
+                self.fun(x, self.p.funcs[x], 0, None)
+            else:
+                self.stmt(x, 0)
+        return "\n".join(self.lines) + "\n"
+
+    def klass(self, name):
+        d = self.p.classes[name]
+        head = "class %s" % name
+        if d["args"]:
+            head += "(" + ", ".join("def %s: %s" % a for a in d["args"]) + ")"
+        self.lines.append(head)
+        for f, t, init, fin in d["fields"]:
+            self.lines.append("    def %s%s: %s := %s" % ("fin " if fin else "", f, t, self.e(init)))
+        for m, md in d["methods"].items():
+            self.lines.append("")
+            self.fun(m, md, 1, "fin self" if md["fin_self"] else "self")
+        self.lines.append("")
+
+    def fun(self, name, d, ind, selfarg):
+        pad = "    " * ind
+        ps = [selfarg] if selfarg else []
+        for n, t, default in d["params"]:
+            ps.append("%s: %s%s" % (n, t, "" if default is None else " := " + self.e(default)))
+        head = "%sdef %s(%s) -> %s" % (pad, name, ", ".join(ps), d["ret"])
+        if d.get("raises"):
+            head += " raise [%s]" % ", ".join(d["raises"])
+        if not d["body"]:
+            self.lines.append(head + " => " + self.e(d["last"]))
+        else:
+            self.lines.append(head + " =>")
+            for s in d["body"]:
+                self.stmt(s, ind + 1)
+            self.lines.append(pad + "    " + self.e(d["last"]))
+        if ind == 0:
+            self.lines.append("")
+
+    def stmt(self, s, ind):
+        pad = "    " * ind
+        L = self.lines
+        k = s[0]
+        if k == "def":
+            _, name, ty, e, fin, ann = s
+            L.append("%sdef %s%s%s := %s" % (pad, "fin " if fin else "", name, ": " + ty if ann else "", self.e(e)))
+        elif k == "set":
+            L.append("%s%s := %s" % (pad, s[1], self.e(s[2])))
+        elif k == "aug":
+            L.append("%s%s %s %s" % (pad, s[1], s[2], self.e(s[3])))
+        elif k == "setfield":
+            L.append("%s%s.%s := %s" % (pad, s[1], s[2], self.e(s[3])))
+        elif k == "print":
+            L.append("%sprint(%s)" % (pad, self.e(s[1])))
+        elif k == "if":
+            L.append("%sif %s then" % (pad, self.e(s[1])))
+            for t in s[2]:
+                self.stmt(t, ind + 1)
+            if s[3] is not None:
+                L.append(pad + "else")
+                for t in s[3]:
+                    self.stmt(t, ind + 1)
+        elif k == "for":
+            _, i, lo, hi, incl, body = s
+            L.append("%sfor %s in %d %s %d do" % (pad, i, lo, "..=" if incl else "..", hi))
+            for t in body:
+                self.stmt(t, ind + 1)
+        elif k == "while":
+            _, c, n, body = s
+            L.append("%sdef %s := 0" % (pad, c))
+            L.append("%swhile %s < %d do" % (pad, c, n))
+            for t in body:
+                self.stmt(t, ind + 1)
+            L.append("%s    %s := %s + 1" % (pad, c, c))
+        elif k == "matchdef":
+            _, name, ty, scrut, arms, default = s
+            L.append("%sdef %s: %s := match %s" % (pad, name, ty, self.e(scrut)))
+            for v, e in arms:
+                L.append("%s    %d => %s" % (pad, v, self.e(e)))
+            L.append("%s    _ => %s" % (pad, self.e(default)))
+        elif k == "ifdef":
+            _, name, ty, c, a, b = s
+            L.append("%sdef %s: %s := if %s then %s else %s" % (pad, name, ty, self.e(c), self.e(a), self.e(b)))
+        elif k == "new":
+            L.append("%sdef %s := %s(%s)" % (pad, s[1], s[2], ", ".join(self.e(a) for a in s[3])))
+        elif k == "handledef":
+            _, name, f, args, exc, alt = s
+            L.append("%sdef %s := %s(%s) handle" % (pad, name, f, ", ".join(self.e(a) for a in args)))
+            L.append("%s    err: %s => %s" % (pad, exc, self.e(alt)))
+        elif k == "raiseif":
+            L.append("%sif %s then" % (pad, self.e(s[1])))
+            L.append("%s    raise %s(\"%s\")" % (pad, s[2], s[3]))
+        else:
+            raise ValueError(k)
+
+    def e(self, x, top=True):
+        k = x[0]
+        if k == "lit":
+            if x[1] == INT:
+                return str(x[2])
+            if x[1] == STR:
+                return '"%s"' % x[2]
+            return "True" if x[2] else "False"
+        if k == "var":
+            return x[2]
+        if k == "bin":
+            s = "%s %s %s" % (self.e(x[3], False), x[2], self.e(x[4], False))
+            return s if top else "(" + s + ")"
+        if k == "not":
+            s = "not %s" % self.e(x[2], False)
+            return s if top else "(" + s + ")"
+        if k == "call":
+            return "%s(%s)" % (x[2], ", ".join(self.e(a) for a in x[3]))
+        if k == "mcall":
+            return "%s.%s(%s)" % (x[2], x[3], ", ".join(self.e(a) for a in x[4]))
+        if k == "field":
+            return "%s.%s" % (x[2], x[3])
+        if k == "fstr":
+            return '"%s{%s}%s"' % (x[2][0], self.e(x[2][1]), x[2][2])
+        raise ValueError(k)
+
+
+# ---------------------------------------------------------------------------------------------------
+# reference semantics
+# ---------------------------------------------------------------------------------------------------
+class Raised(Exception):
+    def __init__(self, cls):
+        self.cls = cls
+
+
+class Obj:
+    def __init__(self, cls):
+        self.cls, self.f = cls, {}
+
+
+class Interp:
+    def __init__(self, prog):
+        self.p = prog
+        self.out = []
+
+    def run(self):
+        env = {}
+        try:
+            for kind, x in self.p.items:
+                if kind == "stmt":
+                    self.stmt(x, env)
+            return self.out, "ok"
+        except Raised as r:
+            return self.out, "uncaught " + r.cls
+        except ZeroDivisionError:
+            return self.out, "uncaught ZeroDivisionError"
+
+    def show(self, v):
+        if isinstance(v, bool):
+            return "True" if v else "False"
+        return str(v)
+
+    def stmt(self, s, env):
+        k = s[0]
+        if k == "def":
+            env[s[1]] = self.e(s[3], env)
+        elif k == "set":
+            env[s[1]] = self.e(s[2], env)
+        elif k == "aug":
+            v = self.e(s[3], env)
+            env[s[1]] = {"+=": env[s[1]] + v, "-=": env[s[1]] - v, "*=": env[s[1]] * v}[s[2]]
+        elif k == "setfield":
+            env[s[1]].f[s[2]] = self.e(s[3], env)
+        elif k == "print":
+            self.out.append(self.show(self.e(s[1], env)))
+        elif k == "if":
+            branch = s[2] if self.e(s[1], env) else s[3]
+            if branch is not None:
+                local = dict(env)
+                for t in branch:
+                    self.stmt(t, local)
+                self.merge(env, local)
+        elif k == "for":
+            _, i, lo, hi, incl, body = s
+            for v in range(lo, hi + 1 if incl else hi):
+                local = dict(env)
+                local[i] = v
+                for t in body:
+                    self.stmt(t, local)
+                self.merge(env, local)
+        elif k == "while":
+            _, c, n, body = s
+            env[c] = 0
+            while env[c] < n:
+                local = dict(env)
+                for t in body:
+                    self.stmt(t, local)
+                self.merge(env, local)
+                env[c] = env[c] + 1
+        elif k == "matchdef":
+            _, name, ty, scrut, arms, default = s
+            v = self.e(scrut, env)
+            for a, e in arms:
+                if a == v:
+                    env[name] = self.e(e, env)
+                    break
+            else:
+                env[name] = self.e(default, env)
+        elif k == "ifdef":
+            env[s[1]] = self.e(s[4], env) if self.e(s[3], env) else self.e(s[5], env)
+        elif k == "new":
+            env[s[1]] = self.new(s[2], [self.e(a, env) for a in s[3]])
+        elif k == "handledef":
+            _, name, f, args, exc, alt = s
+            try:
+                env[name] = self.callf(f, [self.e(a, env) for a in args])
+            except Raised as r:
+                if self.is_a(r.cls, exc):
+                    env[name] = self.e(alt, env)
+                else:
+                    raise
+        elif k == "raiseif":
+            if self.e(s[1], env):
+                raise Raised(s[2])
+
+    def merge(self, env, local):
+        """block scoping: definitions of the block vanish, reassignments of outer names persist"""
+        for n in env:
+            env[n] = local[n]
+
+    def is_a(self, cls, anc):
+        while cls is not None:
+            if cls == anc:
+                return True
+            cls = self.p.classes[cls]["parent"] if cls in self.p.classes else None
+        return anc == "Exception"
+
+    def new(self, c, args):
+        d = self.p.classes[c]
+        o = Obj(c)
+        for (a, _), v in zip(d["args"], args):
+            o.f[a] = v
+        for f, t, init, fin in d["fields"]:
+            o.f[f] = self.e(init, {})
+        return o
+
+    def callf(self, f, args, this=None, d=None):
+        d = d or self.p.funcs[f]
+        env = {}
+        if this is not None:
+            env["self"] = this
+        for i, (n, t, default) in enumerate(d["params"]):
+            env[n] = args[i] if i < len(args) else self.e(default, {})
+        for s in d["body"]:
+            self.stmt(s, env)
+        return self.e(d["last"], env)
+
+    def e(self, x, env):
+        k = x[0]
+        if k == "lit":
+            return x[2]
+        if k == "var":
+            if x[2].startswith("self."):
+                return env["self"].f[x[2][5:]]
+            return env[x[2]]
+        if k == "not":
+            return not self.e(x[2], env)
+        if k == "bin":
+            op = x[2]
+            if op == "and":
+                return self.e(x[3], env) and self.e(x[4], env)
+            if op == "or":
+                return self.e(x[3], env) or self.e(x[4], env)
+            a, b = self.e(x[3], env), self.e(x[4], env)
+            return {"+": lambda: a + b, "-": lambda: a - b, "*": lambda: a * b, "//": lambda: a // b, "mod": lambda: a % b,
+                    "<": lambda: a < b, "<=": lambda: a <= b, ">": lambda: a > b, ">=": lambda: a >= b,
+                    "=": lambda: a == b, "!=": lambda: a != b}[op]()
+        if k == "call":
+            return self.callf(x[2], [self.e(a, env) for a in x[3]])
+        if k == "mcall":
+            o = env["self"] if x[2] == "self" else env[x[2]]
+            d = self.p.classes[o.cls]["methods"][x[3]]
+            return self.callf(x[3], [self.e(a, env) for a in x[4]], this=o, d=d)
+        if k == "field":
+            o = env["self"] if x[2] == "self" else env[x[2]]
+            return o.f[x[3]]
+        if k == "fstr":
+            return x[2][0] + self.show(self.e(x[2][1], env)) + x[2][2]
+        raise ValueError(k)
